@@ -179,6 +179,7 @@ func runC19(c *Ctx) {
 		}
 		outs = append(outs, string(out))
 		jobs = append(jobs, job{i, "roundtrip"})
+		corrNorm(c, "swagger", d) // the re-encoding that is validated is the codec model's output
 		// expansion
 		var sw spec.Swagger
 		if err := json.Unmarshal([]byte(texts[i]), &sw); err != nil {
